@@ -73,6 +73,9 @@ def suite_roundtrip_ok(rng, tier, flavour):   # C02: only correct declarations, 
             b.op_lookup()
             if rng.random() < 0.25:
                 b.op_restore()
+            if rng.random() < 0.15:
+                # the whole cache is cleared (tmp/ goes too) and the same process writes on
+                b.op_remove(allow_clear=1.0)
         b.final_lookups()
         yield b.prog
 
@@ -185,8 +188,8 @@ REGISTRY = {
             "rule": "writers dropped after creation / after some chunks / after a rejected commit, or left open, interleaved with successful operations; plus async writers whose writes are cancelled while the background task is in flight (started, polled once, dropped) before further chunks and commit; lookups, listing, and the final tree (including tmp/) compared."},
     "C16": {"flavours": Q3, "suites": [("dedup", suite_dedup)], "step_suites": [("rewrite_kill", steps.suite_rewrite_kill)],
             "rule": "programs re-writing equal data under the same and different keys through different entry points, flavours and all five algorithms; returned addresses (hashlib/libxxhash), lookups and the final tree (one file per address) compared; plus a strace kill sweep over re-writes of stored bytes (one-shot same / other key, by address, streamed with and without declared size): at every kill point the stored copy is present, byte-identical, and its key still reads it."},
-    "C01": {"flavours": Q3, "suites": [("damage_content", suite_damage_content), ("rot", suite_rot)],
-            "rule": "programs that store data then damage content files (bit flip, truncation, extension, emptying, bytes of another entry, deletion, symlink substitution) and retrieve through every checked entry point (read, read_hash, streamed reader + check, copy/hard_link/reflink); plus programs in which an entry is retrieved successfully, then rots IN PLACE (same inode, length and timestamps: a flipped bit or another entry's bytes) and is retrieved again in the same process through every checked entry point."},
+    "C01": {"flavours": Q3, "suites": [("damage_content", suite_damage_content), ("rot", suite_rot)], "step_suites": [("fault_damaged", steps.suite_fault_damaged)],
+            "rule": "with strace: checked copy / read of an entry whose content is damaged (same length) while one system call of the retrieval fails (EIO, or EINTR which is re-issued) - the answer is an error, never success with other bytes; programs that store data then damage content files (bit flip, truncation, extension, emptying, bytes of another entry, deletion, symlink substitution) and retrieve through every checked entry point (read, read_hash, streamed reader + check, copy/hard_link/reflink); plus programs in which an entry is retrieved successfully, then rots IN PLACE (same inode, length and timestamps: a flipped bit or another entry's bytes) and is retrieved again in the same process through every checked entry point."},
     "C18": {"flavours": Q3, "suites": [("extract", suite_extract), ("damage_content", suite_damage_content), ("rot", suite_rot)],
             "rule": "copy / hard_link / reflink by key and by address, checked and unchecked, to fresh and existing destinations, on pristine and damaged content; results, byte counts and destination files compared."},
     "C12": {"flavours": Q3, "suites": [("all", suite_all), ("damage", suite_damage), ("crafted", suite_crafted), ("mixed", suite_mixed)],
